@@ -435,9 +435,21 @@ def _diverse_models(pc, names, k, timeout, seed=0):
     import random
     rnd = random.Random(1234 + seed)
     reals = [n for n in names if not n.startswith(("c_", "s_"))]
+    angles = sorted(n[2:] for n in names if n.startswith("c_") and ("s_" + n[2:]) in names)
+    triples = [(3, 4, 5), (5, 12, 13), (8, 15, 17), (7, 24, 25), (20, 21, 29), (9, 40, 41)]
     out = []
     for i in range(k):
         extra = []
+        for a in angles:
+            # a generic direction for every angle given as a point of the unit circle (rational points: exact)
+            if rnd.randrange(5) == 0:
+                continue
+            p_, q_, h_ = triples[rnd.randrange(len(triples))]
+            if rnd.randrange(2):
+                p_, q_ = q_, p_
+            sc, ss = rnd.choice((1, -1)), rnd.choice((1, -1))
+            extra.append(z3.And(z3.Real("c_" + a) == z3.RealVal("%d/%d" % (sc * p_, h_)), z3.Real("s_" + a) == z3.RealVal("%d/%d" % (ss * q_, h_))))
+        rnd.shuffle(extra)
         for n in reals:
             v = z3.Real(n)
             ch = rnd.randrange(5)
@@ -679,7 +691,12 @@ def run_path(harness, params, prefix, opts):
             out["pc_model_interior"] = interior
             out["crosscheck"] = run_concrete(harness, params, m)
             out["sym_ob_names_hash"] = hashlib.sha256("|".join(sorted(n for n, _ in env.obligations)).encode()).hexdigest()[:16]
-    inconclusive_ob = out["status"] == "ok" and any(o["result"] == "unknown" for o in out["obligations"])
+    def _open(o):       # not settled either way: unknown, or a counterexample that the concrete replay did not reproduce
+        if o["result"] == "unknown":
+            return True
+        rp = o.get("replay")
+        return o["result"] == "sat" and not (rp and (o["name"] in rp.get("failed", []) or rp.get("status") == "exception"))
+    inconclusive_ob = out["status"] == "ok" and any(_open(o) for o in out["obligations"])
     if (out["status"] in ("unsupported", "exception") or inconclusive_ob) and want_cc and opts.get("fallback_models", 6) > 0 \
             and not (out.get("crosscheck") or {}).get("failed") and (out.get("crosscheck") or {}).get("status") != "exception":
         # The symbolic run could not finish this path.  Guard (not the deciding step): run the plain package on
